@@ -40,6 +40,18 @@ THEOREMS = [
     "MCHap.C17.positive_iff_valid",
     "MCHap.C17.duo_positive_iff_valid",
     "MCHap.C17.enumerator_complete_small",
+    "MCHap.C17.increment_is_predecessor",
+    "MCHap.C17.stuck_is_minimum",
+    "MCHap.C17.enumerator_complete",
+    "MCHap.C17.enumerator_perm_spec",
+    "MCHap.C17.trioValid_eq_spec",
+    "MCHap.C17.positive_iff_trioValid",
+    "MCHap.C17.multinomial_convolution",
+    "MCHap.C17.gameteCode_eq_spec",
+    "MCHap.C17.support_under_constraint",
+    "MCHap.C17.trioCode_eq_spec",
+    "MCHap.C17.trioCode_sum_one",
+    "MCHap.C17.trioCode_positive_iff_trioValid",
 ]
 RULE = ("cases: every unordered progeny genotype of (n_alleles 1..4) x (ploidy_p, ploidy_q, tau_p, tau_q) in balanced / mixed-ploidy / "
         "unbalanced / clonal (tau = 0) / unknown-parent configurations x lambda {0, .1, .5} (tau = 2) x errors {0, .01, .5, 1} x "
@@ -144,11 +156,9 @@ def run(tier, replay=None):
         "float64 log-space evaluation (log, exp, lgamma, log1p) is compared at rel 1e-9, sums at 1e-9 absolute; not proved",
         "frequency vectors are float64 and sum to one only up to rounding; the theorems are for exact sums",
         "an unknown parent is passed as ploidy 0 with error 1.0, as every caller in mchap does (trio_log_pmf itself does not force it)",
-        "completeness of the literal gamete enumerator (every vector under the constraint is visited) is checked by kernel evaluation for "
-        "all constraint vectors of length <= 4 with entries <= 3 and tested beyond (oracle C17/enum/complete); soundness and strict "
-        "lexicographic decrease are theorems for every constraint",
-        "the identity trioPmfCode (four branches + literal enumerator) = trioPmf (sum over all gamete pairs, the object of trio_sum_one and "
-        "positive_iff_valid) is NOT a theorem: the driver evaluates both in exact rationals on every case and any difference is a disagreement",
+        "trioCode_eq_spec (model of trio_log_pmf = sum over all gamete pairs) holds under TrioWF: equal vector lengths, progeny total "
+        "tau_p + tau_q, unknown parent passed with error 1.0 (as every caller in mchap does), errors <= 1, lambda >= 0 and non-zero only "
+        "for tau = 2; the driver still evaluates both forms in exact rationals on every case",
         "the equality of the evaluation on allele-count vectors and on first-occurrence slot vectors is tested, not proved",
     ])
     chk.prove()
